@@ -30,17 +30,6 @@ theorem sumTo_eq (n : Nat) (f : Nat → M) : sumTo n f = ∑ i ∈ range n, f i 
 
 end sums
 
-theorem memo_eq {α : Type} (n : Nat) (f : V α) : memo n f = f := by
-  funext i
-  simp only [memo]
-  split
-  · simp [Array.getElem_ofFn]
-  · rfl
-
-theorem Op.memo_eq {α : Type} (A : Op α) : A.memo = A := by
-  cases A
-  simp [Op.memo, Scico.Adjoint.memo_eq]
-
 section field
 variable {K : Type} [Field K] [StarRing K]
 
